@@ -158,6 +158,8 @@ class Origins:
                         cs.append(("unbounded", "partial assignment"))
                 return self.join(cs)
             return ("unbounded", "local _%s (%s)" % (t[1], ty))
+        if k == "discr":
+            return ("bounded", 8, "enum discriminant")
         if k == "agg":
             return self.join([self.classify(body, a, depth, seen) for a in t[3]]) if t[3] else ("const", 0)
         return ("unbounded", "unrecognised term %s" % k)
@@ -245,7 +247,7 @@ def payload_ty(ty):
         return ty
     m = re.match(r"^std::(?:result::Result|option::Option)<([^,<>]+)(?:,.*)?>$", ty)
     if m:
-        return m.group(1).strip()
+        return m.group(1).strip().lstrip("&").replace("mut ", "").strip()
     m = re.match(r"^&(?:mut )?(\w+)$", ty)
     if m:
         return m.group(1)
